@@ -184,6 +184,24 @@ theorem dictCompF_mono (h : r.Le r') (env : Env) (x : Id) (k v : Expr) (items : 
     mono using ih
 macro_rules | `(tactic| mono_lemma) => `(tactic| apply dictCompF_mono)
 
+theorem compTF_mono (h : r.Le r') (env : Env) (xs : List Id) (cond : Option Expr) (body : Expr) (items : List Val) :
+    RLe (compTF r env xs cond body items) (compTF r' env xs cond body items) := by
+  induction items with
+  | nil => exact RLe.refl _
+  | cons it items ih =>
+    simp only [compTF]
+    mono using ih
+macro_rules | `(tactic| mono_lemma) => `(tactic| apply compTF_mono)
+
+theorem dictCompTF_mono (h : r.Le r') (env : Env) (xs : List Id) (k v : Expr) (items : List Val) :
+    RLe (dictCompTF r env xs k v items) (dictCompTF r' env xs k v items) := by
+  induction items with
+  | nil => exact RLe.refl _
+  | cons it items ih =>
+    simp only [dictCompTF]
+    mono using ih
+macro_rules | `(tactic| mono_lemma) => `(tactic| apply dictCompTF_mono)
+
 theorem methF_mono (h : r.Le r') (P : Program) (recv : Val) (m : Id) (args : List Val) :
     RLe (methF r P recv m args) (methF r' P recv m args) := by
   unfold methF
